@@ -32,7 +32,7 @@ DRAIN_ENTRIES = lambda s: s == "CircularBuffer::drain" or s.startswith("<Drain<"
 def run(ctx, progs):
     ctx.explanation = EXPLANATION
     for r, t in (("DRN1", "drain typestate"), ("DROPPER1", "guards before drops"), ("DRAINIT1", "index iterator protocol"),
-                 ("BACKFILL1", "back-fill on every path to the restore"), ("DRNVIEW1", "un-yielded views bounded by iter, never by range"), ("MOD1", "capacity zero"), ("RANGE1", "bound translation")):
+                 ("BACKFILL1", "back-fill on every path to the restore"), ("BACKFILL2", "back-fill geometry: hole = [range.start, range.end), moved block ends at buf_size, size = prefix + moved"), ("DRNVIEW1", "un-yielded views bounded by iter, never by range"), ("MOD1", "capacity zero"), ("RANGE1", "bound translation")):
         ctx.rule(r, t)
     ctx.rule("KIND1", "index-kind inference: physical positions and logical indices/lengths are never compared, and never stand in for each other")
     ctx.rule("SUB1", "no subtraction in the drain code underflows (Drain's index invariant range.start <= iter.start <= iter.end <= range.end <= buf_size is an axiom)")
@@ -63,6 +63,7 @@ def run(ctx, progs):
 
         _lr.view2(ctx, prog, cfg, only=("Drain::as_slices", "Drain::as_mut_slices"))
         backfill1(ctx, prog, cfg)
+        drainrules.backfill2(ctx, prog, cfg)
         eng = shared.run_mod1(prog)
         n = shared.report_requires(ctx, eng, "MOD1", cfg, entry_filter=DRAIN_ENTRIES)
         ctx.floor("MOD1", "sites reachable from the drain entries", n, 8, cfg)
